@@ -205,7 +205,7 @@ theorem fits_texts {s : SArg} {a : Arg} (h : s.fits a = true) : ∀ l ∈ argErr
     simp only [Option.map_some]
     unfold argErrs at hl
     rw [ho] at hl
-    cases hkk : a.kind <;> rw [hkk] at hl <;> simp at hl <;> simp [hl]
+    cases hkk : a.kind <;> rw [hkk] at hl <;> simp at hl <;> (first | (rcases hl with rfl | rfl) | skip) <;> simp_all
   | none =>
     simp only [Option.map_none]
     unfold argErrs at hl
